@@ -68,6 +68,24 @@ def _world(rng, tag):
                 if d not in script:
                     script.append(d)
         prices.append((name, cdef))
+        if rng.random() < 0.5:
+            # a money type declared THROUGH another derived money type (price per X, per Y):
+            # its own definition mentions no Money, its normalised definition does (seeded C10-g)
+            b2, us2 = rng.choice(bases)
+            cdef2 = [[name, 1], [b2, -1]]
+            n2 = f"F{tag}{i}"
+            script.append({'d': 'cls', 'name': n2, 'def': cdef2, 'ref': None, 'quantum': None})
+            punits = [d for d in script if d['d'] == 'derive' and d['cls'] == name]
+            u2 = rng.choice(us2)
+            for d in punits[:4]:
+                w0 = RW.RefWorld()
+                try:
+                    for x in script:
+                        w0.apply(x)
+                    psym = [s for s in w0.order if w0.units[s]['cls'] == name][punits.index(d)]
+                except Exception:       # noqa
+                    break
+                script.append({'d': 'derive', 'cls': n2, 'units': [psym, u2], 'sym': None})
     # a type without money, derived from the bases
     script.append({'d': 'cls', 'name': f"N{tag}", 'def': [[bases[0][0], 2]], 'ref': None, 'quantum': None})
     return script
@@ -95,8 +113,8 @@ def gen_cases(rng, tier):
             r = [cu, ['int', mult], ct, ['dec' if W.is_decimal(amt) else 'frac', frs(amt)]]
             x = rng.random()
             money = [c for c, _ in CURS]
-            prices = [s for s in w.order if w.units[s]['cls'].startswith('P')]
-            others = [s for s in w.order if not w.units[s]['cls'].startswith('P') and s not in money]
+            prices = [s for s in w.order if w.units[s]['cls'][0] in 'PF']
+            others = [s for s in w.order if w.units[s]['cls'][0] not in 'PF' and s not in money]
             if x < 0.3:
                 u = rng.choice([cu, cu, ct, rng.choice(money)])
             elif x < 0.9 and prices:
